@@ -72,6 +72,11 @@ CHECKS = {
    text='Complete product of flag placements ({none,*,+} on a plane and a sphere bounding converted cells, on a plane used only by an importance-0 cell, on an unused plane), identical unflagged copies with lower/higher/both numbers (used or unused), flagged macrobody, with and without --skip-deduplication; the BOUNDARY_CONDITION block must contain exactly one entry of the right kind per flagged surface bounding a converted cell, naming a SURF of the file with the flagged polynomial, and nothing else; a flagged macrobody must be rejected.',
    note='Trusted: * -> REFLECTION, + -> COSINUS. Two flagged surfaces with the same locus are not generated.',
    tech='explicit enumeration (complete product); BC block joined with polynomial identification of the designated SURF'),
+
+ 'C17': dict(cat='fault_enumeration', ref='4/C17',
+   text='Complete enumeration of the fault classes of the statement at every applicable site of valid base decks: m=-1 on TR cards (plain, starred, unused, used by a surface) and in inline plain/starred TRCL and FILL; LAT cells without --lattice, with --lattice for another cell, with too few / too many / misplaced non-trivial ranges on the card and on the command line, FILL arrays one short and one long; every elementary mnemonic and every macrobody with one parameter too few and too many; unknown mnemonics; facet 0 and n+1 of every macrobody kind; IMP cards of unequal length; mixed-sign fractions at every position; malformed --lattice strings. A normally finished conversion, an empty message or a bare Python KeyError/IndexError/TypeError is a violation; the un-faulted base decks must convert.',
+   note='Trusted: parameter counts per mnemonic (MCNP manual); the 5-entry torus accepted by the bundled MIP library is not counted as a fault. Two recorded known findings (surplus FILL array entry read as a transformation number).',
+   tech='exhaustive fault x site enumeration against the real entry point'),
 }
 NA_REASON = 'check not built yet in this build round (planned, see DESIGN.md section 4); no claim is made'
 
